@@ -361,6 +361,33 @@ Definition bw_write (ws : list answer) (b : buffer) (log : list wev) (data : lis
     Ok (OOk k, b, log, ws)
   end.
 
+(* BufWriter::write_vectored(segments): each segment goes BEHIND the bytes already in
+   the buffer; the loop stops once the buffer is full *)
+Definition bw_fill (b : buffer) (data : list byte) : buffer * nat :=
+  let v := bvec b in
+  let k := Nat.min (length data) (vcap v - vlen v) in
+  (if Nat.eqb k 0 then b else mkbuf (slice_fill v (vlen v) (firstn k data)) (bbegin b), k).
+
+Fixpoint bw_fill_segs (b : buffer) (segs : list (list byte)) : buffer * nat :=
+  match segs with
+  | [] => (b, 0)
+  | d :: r =>
+    let '(b1, k) := bw_fill b d in
+    if Nat.eqb (vlen (bvec b1)) (vcap (bvec b1)) then (b1, k)
+    else let '(b2, k2) := bw_fill_segs b1 r in (b2, k + k2)
+  end.
+
+Definition bw_write_vectored (ws : list answer) (b : buffer) (log : list wev)
+  (segs : list (list byte)) : R (outcome * buffer * list wev * list answer) :=
+  let! '(o, b, log, ws) := bw_flush_if_needed ws b log in
+  match o with
+  | OErr e => Ok (OErr e, b, log, ws)
+  | OOk _ =>
+    let '(b, k) := bw_fill_segs b segs in
+    let! '(_, b, log, ws) := bw_flush_if_needed ws b log in
+    Ok (OOk k, b, log, ws)
+  end.
+
 (* BufWriter::shutdown = flush, then inner shutdown *)
 Definition bw_shutdown (ws : list answer) (b : buffer) (log : list wev) :=
   let! '(o, b', log', ws') := bw_flush ws b log in
